@@ -63,6 +63,15 @@ def exactActs (pdir : Option Str) : Item → List TableParse.Action
   | .orig i k t => if k == .other then (lineRes pdir (renderItem (.orig i k t))).toList else []
   | .fin t => (lineRes pdir (renderItem (.fin t))).toList
 
+/-- what an item of the expansion contributes to `Table(expanded).actions(flavor, types)` when `exact` is NOT among the setup
+types: every line of the input (setup lines as rewritten, lines passed through, final block) whatever the reader makes of it;
+pins and the lines of the block structure nothing -/
+def inexactActs (pdir : Option Str) : Item → List TableParse.Action
+  | .pin _ _ _ _ => []
+  | .gen _ _ => []
+  | .orig i k t => (lineRes pdir (renderItem (.orig i k t))).toList
+  | .fin t => (lineRes pdir (renderItem (.fin t))).toList
+
 /-- the text of the expanded table: the lines `output` prints, joined by newlines (`nl`: with the final newline) -/
 def expandedText (items : List Item) (nl : Bool) : Str := joinNL (items.map renderItem) ++ (if nl then [10] else [])
 
